@@ -729,6 +729,13 @@ def str_method(I, obj, name, args, kw):
         conc_args = all(isinstance(a, (str, int)) for a in args)
         if name in ("split", "rstrip", "lstrip", "strip", "startswith", "endswith", "lower", "upper", "rsplit", "isdigit") and conc_args:
             return getattr(obj, name)(*args)
+        if name == "join" and isinstance(args[0], SList):
+            # a string of unknown content (its length is not needed by any contract)
+            j = fresh_int("join_j")
+            I.ctx.assume(z3.And(j >= 0, j < Z(args[0].length)))
+            if not I.ctx.entails(Z(args[0].length) <= 0) and not isinstance(args[0].elem(j), (str, SStr)):
+                I.raise_("TypeError")
+            return SStr(fresh_str("joined"))
         if name == "join":
             parts = I.iter_values(args[0])
             if all(isinstance(p, str) for p in parts):
